@@ -534,7 +534,9 @@ def run_case(ctx, case: dict) -> None:
 
 
 def _run_case(ctx, case: dict) -> None:
-    if case.get("kind") == "in-flight-duplicate":
+    if case.get("kind") == "vanished-child":
+        arun(vanished_child_case(ctx, case))
+    elif case.get("kind") == "in-flight-duplicate":
         arun(in_flight_duplicate_case(ctx, case))
     elif case.get("kind") == "mass-park":
         arun(mass_park_case(ctx, case))
@@ -550,6 +552,49 @@ def _run_case(ctx, case: dict) -> None:
         arun(nonmessage_case(ctx, case))
     else:
         arun(send_case(ctx, case))
+
+
+async def vanished_child_case(ctx, case: dict) -> None:
+    """Commands are held for two children of a sleeping node; then the application removes ONE child from the registry (or
+    the node presents itself again and only the other child is presented again).  The command for the child that is still
+    there was accepted and held: it is handed to the transport at one of the next wakes, whatever becomes of the stale one."""
+    from aiomysensors.model.message import Message
+    from aiomysensors.model.node import Child, Node
+
+    version = case["version"]
+    gateway, transport = new_gateway(version)
+    stepper = Stepper(gateway, transport)
+    gateway.nodes[DEST] = Node(DEST, 17, "2.0", children={0: Child(0, 3), 7: Child(7, 3)}, sleeping=True)
+    stale, kept = (0, 7) if case["stale_first"] else (7, 0)
+    order = [stale, kept] if case["stale_first"] else [kept, stale]
+    lines = {}
+    for child in order:
+        fields = (DEST, child, 1, 0, 2, f"for-child-{child}")
+        lines[child] = ";".join(str(f) for f in fields) + "\n"
+        await stepper.tx(Message(*fields))
+    transport.take_writes()
+    if case["how"] == "child-removed":
+        del gateway.nodes[DEST].children[stale]
+    else:
+        await stepper.rx(f"{DEST};255;0;0;17;2.0\n")
+        await stepper.rx(f"{DEST};{kept};0;0;3;again\n")
+        gateway.nodes[DEST].sleeping = True
+    wake = 32 if gateway.protocol.VERSION == "2.2" else 22
+    outcomes = []
+    for _ in range(3):
+        kind, exc = await stepper.rx(f"{DEST};255;3;0;{wake};1\n")
+        outcomes.append(kind if kind != "error" else type(exc).__name__)
+        if kind == "error" and not is_library_error(exc):
+            ctx.violation("send-foreign-exception-" + type(exc).__name__, f"wake after a child vanished raised {type(exc).__name__}", case)
+    written = transport.take_writes()
+    ctx.case(("vanished-child", version, case["how"], case["stale_first"], repr(sorted((case.get("config_extra") or {}).items()))),
+             sample=case)
+    ctx.clause("held-for-a-child-that-is-still-there")
+    if written.count(lines[kept]) != 1:
+        ctx.violation("held-message-lost", f"commands were held for children {order} of sleeping node {DEST}, child {stale} "
+                                           f"vanished ({case['how']}): the command for child {kept} was written "
+                                           f"{written.count(lines[kept])} times at the next three wakes (outcomes {outcomes})", case)
+    await stepper.close()
 
 
 def unknown_option_pass(ctx) -> None:
@@ -577,6 +622,10 @@ def unknown_option_pass(ctx) -> None:
                     for fields in pool:
                         arun(send_case(ctx, {"version": version, "dest": dest, "fields": fields, "buffered": None,
                                              "intervening": "none", "config_extra": extra}))
+                if version.startswith("2"):
+                    for how, stale_first in itertools.product(("child-removed", "re-presented"), (True, False)):
+                        arun(vanished_child_case(ctx, {"kind": "vanished-child", "version": version, "how": how,
+                                                       "stale_first": stale_first, "config_extra": extra}))
             ctx.clause("unknown-option-pass")
         finally:
             harness.CONFIG_EXTRA.clear()
@@ -620,6 +669,11 @@ def run(ctx) -> None:
         pair_pool = [[DEST, 0, 1, 0, 2, "s1"], [DEST, 0, 2, 0, 2, ""], [DEST, 0, 1, 1, 3, "s2"], [DEST, 7, 2, 0, 2, ""],
                      [DEST, 7, 1, 0, 2, "s3"], [DEST, 255, 3, 0, 13, ""], [DEST, 0, 0, 0, 6, "p"], [DEST, 255, 4, 0, 0, "fw"],
                      [DEST, 0, 2, 1, 3, "q"], [DEST, 255, 3, 0, 19, ""]]
+        for version in ("2.0", "2.1", "2.2"):
+            for how, stale_first in itertools.product(("child-removed", "re-presented"), (True, False)):
+                if ctx.mine():
+                    arun(vanished_child_case(ctx, {"kind": "vanished-child", "version": version, "how": how,
+                                                   "stale_first": stale_first}))
         for version in ("2.0", "2.1", "2.2"):
             first = [DEST, 0, 1, 0, 2, "v"]
             for second in ([DEST, 0, 1, 0, 2, "v"], [DEST, 0, 1, 1, 2, "v"], [DEST, 0, 1, 0, 2, "w"], [DEST, 7, 1, 0, 2, "v"],
